@@ -83,12 +83,8 @@ func (g *G) badOps() []badOp {
 	return []badOp{
 		{"arith", func(g *G) []*S { return []*S{Return(Bin(ar(), g.genInt(1), Nil()))} }},
 		{"arith", func(g *G) []*S { return []*S{Return(Bin(ar(), tv(), g.genInt(1)))} }},
-		{"arith", func(g *G) []*S {
-			if !g.c11 { // string operands: C11 only (see known finding string-arith-error-line)
-				return []*S{Return(Bin(ar(), g.genInt(1), tv()))}
-			}
-			return []*S{Return(Bin(ar(), sv(), g.genInt(1)))}
-		}},
+		{"arith", func(g *G) []*S { return []*S{Return(Bin(ar(), sv(), g.genInt(1)))} }},
+		{"arith", func(g *G) []*S { return []*S{Local1("y", g.genInt(0)), Local1("r", Bin(ar(), Var("y"), sv())), Return(Var("r"))} }},
 		{"arith", func(g *G) []*S { return []*S{Return(Bin(ar(), g.genBool(0), g.genFloat(0)))} }},
 		{"arith", func(g *G) []*S { return []*S{Return(Un("neg", tv()))} }},
 		{"arith", func(g *G) []*S { return []*S{Local1("u", Nil()), Return(Bin("add", Var("u"), Int(1)))} }},
@@ -135,14 +131,14 @@ func (g *G) badOps() []badOp {
 			return []*S{Local1("p", CallN("setmetatable", Tbl(), Tbl(NV("__metatable", Str("locked"))))), Emit(CallN("getmetatable", Var("p"))), CallS(CallN("setmetatable", Var("p"), Tbl())), Return()}
 		}},
 		{"assert", func(g *G) []*S {
-			if !g.c11 { // string messages of assert: exercised by C11 only (see known finding assert-position-prefix)
+			if g.chance(50) {
 				return []*S{CallS(CallN("assert", Bool(false), Int(7))), Return()}
 			}
 			return []*S{CallS(CallN("assert", Bool(false))), Return()}
 		}},
 		{"assert", func(g *G) []*S { return []*S{CallS(CallN("assert", Nil(), Tbl())), Return()} }},
 		{"assert", func(g *G) []*S {
-			if !g.c11 {
+			if g.chance(40) {
 				return []*S{Emit(CallN("assert", g.genInt(0), Str("unused"))), CallS(CallN("assert", Nil(), Bool(true))), Return()}
 			}
 			return []*S{CallS(CallN("assert", Bool(false), Str("amsg"))), Return()}
